@@ -25,9 +25,9 @@ def run(ctx):
     quick = ctx.tier == "quick"
     dev = ctx.known_devs()
     progs = F.c12_raising(ctx.tier, rnd)
-    agg = run_family("C12raise", progs, NAMES, dev=dev, invariants=INVS, perms=(0, 1) if quick else (0, 1, 2), timeout=1800)
+    agg = run_family("C12raise", progs, NAMES, dev=dev, invariants=INVS, perms=(0, 1, 1001) if quick else (0, 1, 2, 1001, 2003), timeout=1800)
     ctx.add_family(agg)
-    agg = run_family("C12metal", F.c12_metal(ctx.tier, rnd), NAMES + ["macroname"], dev=dev, invariants=INVS, perms=(0, 1, 2), timeout=1800)
+    agg = run_family("C12metal", F.c12_metal(ctx.tier, rnd), NAMES + ["macroname"], dev=dev, invariants=INVS, perms=(0, 1, 2, 1001), timeout=1800)
     ctx.add_family(agg)
     ctx.exhaustive = True
     ctx.rule = ("programs: subsets of the TAL statements on one element with multi-line text interpolations; every call "
